@@ -91,6 +91,10 @@ fn all_names(p: &Prog) -> Vec<String> {
                 pe(f, out);
                 pe(a, out);
             }
+            E::ApplyMod(p, a) => {
+                out.extend(all_names(p));
+                pe(a, out);
+            }
         }
     }
     let mut out = vec![];
@@ -133,6 +137,7 @@ fn body_has_binder(e: &E) -> bool {
         E::Call(_, a, r) => a.iter().any(body_has_binder) || r.as_ref().map(|r| body_has_binder(r)).unwrap_or(false),
         E::Lambda(_, _, b) => body_has_binder(b),
         E::Apply(f, a) => body_has_binder(f) || body_has_binder(a),
+        E::ApplyMod(_, a) => body_has_binder(a),
         _ => false,
     }
 }
@@ -376,10 +381,11 @@ pub fn c01(thorough: bool, replay: Option<String>) -> i32 {
     let mut calls: Vec<Case> = vec![];
     for s in SIGILS {
         calls.extend(calls_cases(Some(s), if thorough { 3 } else { 2 }));
+        calls.extend(nested_cases(Some(s)));
     }
     let n = calls.len() as u64;
     let (st, capped) = par_range(n, 8, cap, || (), |_, st, i| check_c01_case(st, &calls[i as usize], "CALLS"));
-    rep.add_sub("CALLS", "recursion, mutual recursion, constant/zero-argument calls inside helpers, every defun/inline assignment of call chains with a &rest tail at every call site, and every (parameters 1..4, given 0..n) combination of a &rest call with missing positional arguments, x 6 sigils x 2 option sets", n, true, capped, st);
+    rep.add_sub("CALLS", "recursion, mutual recursion, nested (mod ...) forms applied with `a` (outer helper kind x inner helper kind incl. a reused function name x 4 positions), constant/zero-argument calls inside helpers, every defun/inline assignment of call chains with a &rest tail at every call site, and every (parameters 1..4, given 0..n) combination of a &rest call with missing positional arguments, x 6 sigils x 2 option sets", n, true, capped, st);
 
     let n = sp.kernel.len() as u64 * ns;
     let (st, capped) = par_range(n, 16, cap, || (), |_, st, i| {
@@ -678,6 +684,7 @@ pub fn c02(thorough: bool, replay: Option<String>) -> i32 {
         }
     }
     cases.extend(calls_cases(None, if thorough { 3 } else { 2 }));
+    cases.extend(nested_cases(None));
     cases.extend(lookalike_cases(None, thorough, if thorough { &["main-body", "function-body", "defconst", "inline-argument"] } else { &["main-body"] }));
     for e in kernel_exprs(1) {
         cases.push(kernel_case(&e, 0, None));
@@ -946,6 +953,52 @@ fn left_env_of(program: &T) -> Option<T> {
     None
 }
 
+fn nested_progs<'a>(p: &'a Prog, out: &mut Vec<&'a Prog>) {
+    fn walk<'a>(e: &'a E, out: &mut Vec<&'a Prog>) {
+        match e {
+            E::Var(_) | E::Lit(_, _) | E::Quote(_) | E::QuoteSym(_) => {}
+            E::Prim(_, a) | E::List(a) | E::MacroCall(_, a) => a.iter().for_each(|x| walk(x, out)),
+            E::If(c, t, f) => {
+                walk(c, out);
+                walk(t, out);
+                walk(f, out);
+            }
+            E::Call(_, a, r) => {
+                a.iter().for_each(|x| walk(x, out));
+                if let Some(r) = r {
+                    walk(r, out);
+                }
+            }
+            E::Let(_, bs, b) => {
+                bs.iter().for_each(|(_, x)| walk(x, out));
+                walk(b, out);
+            }
+            E::Assign(_, bs, b) => {
+                bs.iter().for_each(|(_, x)| walk(x, out));
+                walk(b, out);
+            }
+            E::Lambda(_, _, b) => walk(b, out),
+            E::Apply(f, a) => {
+                walk(f, out);
+                walk(a, out);
+            }
+            E::ApplyMod(p, a) => {
+                out.push(p);
+                nested_progs(p, out);
+                walk(a, out);
+            }
+        }
+    }
+    for h in &p.helpers {
+        match h {
+            Helper::Fun { body, .. } | Helper::Const { body, .. } => walk(body, out),
+            Helper::Macro { template, .. } => walk(template, out),
+            _ => {}
+        }
+    }
+    walk(&p.body, out);
+}
+
 fn check_c13_case(st: &mut Stats, case: &Case, sub: &str) {
     let sigil = case.prog.sigil.expect("sigil");
     let text = case.prog.text();
@@ -966,6 +1019,10 @@ fn check_c13_case(st: &mut Stats, case: &Case, sub: &str) {
         let lenv = left_env_of(&c.code);
         let replay = json!({"kind": "c13", "text": text, "sigil": sigil, "opts": optname});
         let funs: Vec<(&String, bool, &Pat, &E)> = case.prog.helpers.iter().filter_map(|h| if let Helper::Fun { name, inline, params, body } = h { Some((name, *inline, params, body)) } else { None }).collect();
+        // functions of nested (mod ...) forms: their entries may or may not be in the table; when they are, they must be true too
+        let mut inner_progs: Vec<&Prog> = vec![];
+        nested_progs(&case.prog, &mut inner_progs);
+        let inner_funs: Vec<(&String, &Pat)> = inner_progs.iter().flat_map(|p| p.helpers.iter()).filter_map(|h| if let Helper::Fun { name, params, .. } = h { Some((name, params)) } else { None }).collect();
         let mut entries_present: Vec<String> = vec![];
         for (k, v) in c.symbols.iter() {
             if k.len() != 64 || !k.chars().all(|ch| ch.is_ascii_hexdigit()) {
@@ -986,8 +1043,16 @@ fn check_c13_case(st: &mut Stats, case: &Case, sub: &str) {
             };
             st.outcome("entry-for-code-in-program");
             let base = v.split("_$_").next().unwrap_or(v).to_string();
-            let fun = funs.iter().find(|(n, _, _, _)| **n == *v);
+            // an outer function whose written argument list matches is preferred (a nested module may reuse the name)
+            let fun = funs.iter().find(|(n, _, p, _)| **n == *v && norm_ws(args_txt) == norm_ws(&p.text())).or_else(|| if inner_funs.iter().any(|(n, _)| **n == *v) { None } else { funs.iter().find(|(n, _, _, _)| **n == *v) });
             match fun {
+                None if inner_funs.iter().any(|(n, _)| **n == *v) => {
+                    if inner_funs.iter().any(|(n, p)| **n == *v && norm_ws(args_txt) == norm_ws(&p.text())) {
+                        st.outcome("nested-module-function-entry(name and arguments true)");
+                    } else {
+                        st.violation(&format!("wrong-arguments/{}", sub), format!("{} [{}]: entry {} -> {:?} records arguments {:?}, which no function of that name (outer or nested) was written with", text, optname, k, v, args_txt), text.len(), replay.clone());
+                    }
+                }
                 None => {
                     if v.contains("_$_") || v == "__chia__main" || funs.iter().all(|(n, _, _, _)| **n != base) && v.starts_with("letbinding") || v.starts_with("lambda") {
                         st.outcome("synthetic-function-entry");
@@ -1086,6 +1151,7 @@ pub fn c13(thorough: bool, replay: Option<String>) -> i32 {
             }
         }
         cases.extend(calls_cases(Some(s), if thorough { 3 } else { 2 }));
+        cases.extend(nested_cases(Some(s)));
         let flat: Vec<usize> = if thorough { vec![1, 2, 3, 8, 16, 17, 33] } else { vec![2, 17] };
         for p in param_patterns(if thorough { 3 } else { 2 }, &flat) {
             for kind in ["defun-rest", "defun-positional"] {
@@ -1097,7 +1163,7 @@ pub fn c13(thorough: bool, replay: Option<String>) -> i32 {
     }
     let n = cases.len() as u64;
     let (st, capped) = par_range(n, 8, cap, || (), |_, st, i| check_c13_case(st, &cases[i as usize], "generated"));
-    rep.add_sub("generated", &format!("{} programs with 1..4 user functions plus compiler-synthesised helpers (let/assign/lambda), 6 sigils, optimise on/off", n), n, true, capped, st);
+    rep.add_sub("generated", &format!("{} programs with 1..4 user functions plus compiler-synthesised helpers (let/assign/lambda), nested (mod ...) forms with their own functions, 6 sigils, optimise on/off", n), n, true, capped, st);
     rep.finish()
 }
 
